@@ -192,7 +192,22 @@ pub fn explore<P: Property>(
 where
     P::Stats: Send,
 {
-    explore_dedup(prop, max_depth, max_depth, deadline, Duration::ZERO, threads, merge)
+    explore_dedup(prop, max_depth, max_depth, deadline, Duration::ZERO, threads, merge, 0)
+}
+
+/// `explore` with a required core: levels up to `min_depth` ignore the deadline.
+pub fn explore_min<P: Property>(
+    prop: &P,
+    max_depth: usize,
+    min_depth: usize,
+    deadline: Instant,
+    threads: usize,
+    merge: &(dyn Fn(&mut P::Stats, P::Stats) + Sync),
+) -> Report<P>
+where
+    P::Stats: Send,
+{
+    explore_dedup(prop, max_depth, max_depth, deadline, Duration::ZERO, threads, merge, min_depth)
 }
 
 /// Like `explore`, but at depths >= `dedup_from` a program is only extended if no program executed earlier (shorter,
@@ -208,6 +223,8 @@ pub fn explore_dedup<P: Property>(
     ext_budget: Duration,
     threads: usize,
     merge: &(dyn Fn(&mut P::Stats, P::Stats) + Sync),
+    // levels up to this depth are executed whatever the clock says (the check's required core)
+    min_depth: usize,
 ) -> Report<P>
 where
     P::Stats: Send,
@@ -253,7 +270,7 @@ where
                         if i >= level_ref.len() {
                             break;
                         }
-                        if i % 64 == 0 && Instant::now() >= deadline {
+                        if depth > min_depth && i % 64 == 0 && Instant::now() >= deadline {
                             timed_out.store(true, Ordering::Relaxed);
                         }
                         if timed_out.load(Ordering::Relaxed) {
